@@ -285,18 +285,18 @@ var c04Alpha = []string{
 var c04Core = []int{0, 1, 2, 3, 4, 7, 8, 10, 12}
 
 func c04Programs(tier string, emit func(p pxProg)) {
-	full, core := 3, 4
+	full, core, loopMax := 3, 4, 2
 	if tier == "thorough" {
-		full, core = 4, 5
+		full, core, loopMax = 4, 5, 3
 	}
 	for _, warm := range []string{"", "lw t3, 0(zero)\nlw t3, 64(zero)"} {
 		for n := 1; n <= full; n++ {
 			seqs(len(c04Alpha), n, func(idx []int) {
 				var b []string
-				if n >= 4 {
+				if n >= loopMax+1 {
 					for _, k := range idx {
 						if k == len(c04Alpha)-1 {
-							return // the loop template takes part up to length 3 only (cost)
+							return // the loop template takes part up to length 2 (quick) / 3 only (cost)
 						}
 					}
 				}
@@ -321,7 +321,7 @@ var c04Suite = &pxSuite{
 	Programs:   c04Programs,
 	Violates:   wrongResult,
 	Nontrivial: func(ref *refResult, p pxProg) bool { return ref.Deps > 1 },
-	Rule:       "PX: every sequence of length <= 3 (quick) / <= 4 (thorough) over the 17-template register-pressure alphabet (addi/add/mul/mv/sub over t0..t3 with rd=rs aliases, duplicated sources, zero as destination and as source, a jal whose link register is read next, a three-iteration loop whose loop-carried reader sits below its writer (up to length 3 only), loads that miss then hit into t0/t1/t2, stores as late readers) and of length 4 / 5 over a 9-template core, x cache pre-state {cold, lines 0 and 64 warm}, on MVP-4..8 x parallelism 1..4; oracle = every register holds the value of its last writer in program order (sequential reference) and stores saw the program-order value; non-trivial = distinct programs with at least two register dependences within a distance of two instructions",
+	Rule:       "PX: every sequence of length <= 3 (quick) / <= 4 (thorough) over the 17-template register-pressure alphabet (addi/add/mul/mv/sub over t0..t3 with rd=rs aliases, duplicated sources, zero as destination and as source, a jal whose link register is read next, a three-iteration loop whose loop-carried reader sits below its writer (in sequences up to length 2 (quick) / 3 only), loads that miss then hit into t0/t1/t2, stores as late readers) and of length 4 / 5 over a 9-template core, x cache pre-state {cold, lines 0 and 64 warm}, on MVP-4..8 x parallelism 1..4; oracle = every register holds the value of its last writer in program order (sequential reference) and stores saw the program-order value; non-trivial = distinct programs with at least two register dependences within a distance of two instructions",
 }
 
 // ------------------------------------------------------------------ C05
